@@ -250,6 +250,12 @@ pub(super) trait DialectHandler: Any + Debug {
     fn requires_order_by_in_window_function(&self) -> bool {
         false
     }
+
+    /// Dialects that accept OFFSET only as part of a LIMIT clause return the
+    /// LIMIT value that stands for "no limit" (used for `take n..`).
+    fn limit_for_offset_only(&self) -> Option<&'static str> {
+        None
+    }
 }
 
 impl dyn DialectHandler {
@@ -422,6 +428,11 @@ impl DialectHandler for SQLiteDialect {
     fn stars_in_group(&self) -> bool {
         false
     }
+
+    // https://www.sqlite.org/lang_select.html#limitoffset
+    fn limit_for_offset_only(&self) -> Option<&'static str> {
+        Some("-1")
+    }
 }
 
 impl DialectHandler for MsSqlDialect {
@@ -487,6 +498,11 @@ impl DialectHandler for MsSqlDialect {
 impl DialectHandler for MySqlDialect {
     fn ident_quote(&self) -> char {
         '`'
+    }
+
+    // https://dev.mysql.com/doc/refman/8.0/en/select.html ("some large number")
+    fn limit_for_offset_only(&self) -> Option<&'static str> {
+        Some("18446744073709551615")
     }
 
     fn set_ops_distinct(&self) -> bool {
